@@ -964,8 +964,11 @@ namespace Dune
 #endif
       detinv = real_type(1.0)/detinv;
 
-      x[0] = detinv*((*this)[1][1]*b[0]-(*this)[0][1]*b[1]);
-      x[1] = detinv*((*this)[0][0]*b[1]-(*this)[1][0]*b[0]);
+      // read b before writing x: x may be the same object as b
+      const auto b0 = b[0];
+      const auto b1 = b[1];
+      x[0] = detinv*((*this)[1][1]*b0-(*this)[0][1]*b1);
+      x[1] = detinv*((*this)[0][0]*b1-(*this)[1][0]*b0);
 
     }
     else if (rows()==3) {
@@ -977,17 +980,22 @@ namespace Dune
         DUNE_THROW(FMatrixError,"matrix is singular");
 #endif
 
-      x[0] = (b[0]*(*this)[1][1]*(*this)[2][2] - b[0]*(*this)[2][1]*(*this)[1][2]
-              - b[1] *(*this)[0][1]*(*this)[2][2] + b[1]*(*this)[2][1]*(*this)[0][2]
-              + b[2] *(*this)[0][1]*(*this)[1][2] - b[2]*(*this)[1][1]*(*this)[0][2]) / d;
+      // read b before writing x: x may be the same object as b
+      const auto b0 = b[0];
+      const auto b1 = b[1];
+      const auto b2 = b[2];
 
-      x[1] = ((*this)[0][0]*b[1]*(*this)[2][2] - (*this)[0][0]*b[2]*(*this)[1][2]
-              - (*this)[1][0] *b[0]*(*this)[2][2] + (*this)[1][0]*b[2]*(*this)[0][2]
-              + (*this)[2][0] *b[0]*(*this)[1][2] - (*this)[2][0]*b[1]*(*this)[0][2]) / d;
+      x[0] = (b0*(*this)[1][1]*(*this)[2][2] - b0*(*this)[2][1]*(*this)[1][2]
+              - b1 *(*this)[0][1]*(*this)[2][2] + b1*(*this)[2][1]*(*this)[0][2]
+              + b2 *(*this)[0][1]*(*this)[1][2] - b2*(*this)[1][1]*(*this)[0][2]) / d;
 
-      x[2] = ((*this)[0][0]*(*this)[1][1]*b[2] - (*this)[0][0]*(*this)[2][1]*b[1]
-              - (*this)[1][0] *(*this)[0][1]*b[2] + (*this)[1][0]*(*this)[2][1]*b[0]
-              + (*this)[2][0] *(*this)[0][1]*b[1] - (*this)[2][0]*(*this)[1][1]*b[0]) / d;
+      x[1] = ((*this)[0][0]*b1*(*this)[2][2] - (*this)[0][0]*b2*(*this)[1][2]
+              - (*this)[1][0] *b0*(*this)[2][2] + (*this)[1][0]*b2*(*this)[0][2]
+              + (*this)[2][0] *b0*(*this)[1][2] - (*this)[2][0]*b1*(*this)[0][2]) / d;
+
+      x[2] = ((*this)[0][0]*(*this)[1][1]*b2 - (*this)[0][0]*(*this)[2][1]*b1
+              - (*this)[1][0] *(*this)[0][1]*b2 + (*this)[1][0]*(*this)[2][1]*b0
+              + (*this)[2][0] *(*this)[0][1]*b1 - (*this)[2][0]*(*this)[1][1]*b0) / d;
 
     }
     else {
